@@ -124,7 +124,7 @@ def families(prop: str, tier: str, seed: int) -> List[Dict[str, Any]]:
         s += g.gen_inmem(seed, 160 * k)
     if prop in ("C03", "C04"):
         s += g.gen_sync_sat(seed, 60 * k)
-    if prop in ("C01", "C02", "C03"):
+    if prop in ("C01", "C02", "C03", "C10"):
         s += g.gen_late(seed, 80 * k)
     if prop in ("C03", "C04"):
         from engine import flow
